@@ -216,6 +216,17 @@ def grid_histories():
             dict(op="copy", bucket="bkt-c", key="y4", src_bucket="bkt-a", src_key="dir/x", metadata_directive="COPY", metadata={"other": "meta"}),
             dict(op="get", bucket="bkt-a", key="dir/x")]
     hists.append(ops)
+    # the same long key in several buckets (bookkeeping names near the length limit of a file name): whatever an operation on one bucket does
+    # or fails to do, the other buckets' files stay as they are
+    for n in (120, 160, 212, 700):
+        lk = "k" * n if n <= 255 else "/".join(["s" * 200] * 3) + "/" + "t" * (n - 603)
+        ops = [dict(op="create_bucket", bucket=bk) for bk in BUCKETS]
+        for i, bk in enumerate(BUCKETS[:3]):
+            ops.append(dict(op="put", bucket=bk, key=lk, body="T%d@%s" % (9960 + i, bk), metadata={"owner": bk}))
+        ops += [dict(op="get", bucket=BUCKETS[0], key=lk), dict(op="copy", bucket=BUCKETS[1], key=lk, src_bucket=BUCKETS[2], src_key=lk),
+                dict(op="head", bucket=BUCKETS[0], key=lk), dict(op="delete", bucket=BUCKETS[1], key=lk), dict(op="get", bucket=BUCKETS[0], key=lk),
+                dict(op="delete_many", bucket=BUCKETS[2], keys=[lk]), dict(op="get", bucket=BUCKETS[0], key=lk), dict(op="delete_bucket", bucket=BUCKETS[1])]
+        hists.append(ops)
     return hists
 
 
@@ -394,6 +405,22 @@ def run_overlaps(ctx):
             cases.append(dict(before=before, experiment=dict(kind="concurrent", writers=writers), after=after, threads=(1 if rd % 2 == 0 else 4)))
             meta.append((lay, bodies, buckets))
     res = vlib.run_impl("c19", cases)
+    # the multi-destination model under a random interleaving of the same writers: what each destination holds in the end
+    exprs = []
+    for (lay, bodies, buckets), case in zip(meta, cases):
+        ws, sched = [], []
+        for wi, (w, body) in enumerate(zip(case["experiment"]["writers"], bodies)):
+            frames = [body[i:i + w["frame"]] for i in range(0, len(body), w["frame"])]
+            ws.append("{| m_dest := %d; m_w := {| w_frames := [%s]; w_fault := no_fault |} |}" % (wi + 1, ";".join(cb(f) for f in frames)))
+            sched += [wi] * (len(frames) + 2)
+        sched = rng.shuffle(sched)
+        exprs.append("show_msys (mrun_sched [%s] [] [%s]%%nat)" % (";".join(ws), ";".join(map(str, sched))))
+    model = [m.decode() for m in vlib.run_model("C17", ["lib.Bytes", "model.FsWrite", "model.FsWriteMulti"], exprs, shard=4)]
+    for (lay, bodies, buckets), r, mo in zip(meta, res, model):
+        want_model = "|tmp=0|" + ",".join("ok" for _ in lay)
+        held = dict(kv.split("=") for kv in mo.split("|")[0].split(";") if kv)
+        if not mo.endswith(want_model) or any(held.get(str(wi + 1)) != body.hex() for wi, body in enumerate(bodies)):
+            ctx.violation(dict(stage="model", kind="the model's own run contradicts the theorem", out=mo[:300]), has_input=False)
     for (lay, bodies, buckets), r in zip(meta, res):
         ctx.cov["evaluations"] += 1
         ctx.count("overlap.writers_%d" % len(lay))
